@@ -359,7 +359,7 @@ func genScenario(r *Rng, pf pipeProfile) PScn {
 			// `Zz_Generated.go` are the user's (the base name is matched as it is written); `zz_generated.Old2.go` is an output
 			// of an earlier generation and stale.  (Two names of one directory that differ in case only are left out: the go
 			// tool refuses such a package — "case-insensitive file name collision".)
-			for _, e := range []string{"ZZ_generated.notes.go", "Zz_Generated.go", pipeBase + ".Old2.go"} {
+			for _, e := range []string{"ZZ_generated.notes.go", "Zz_Generated.go", pipeBase + ".Old2.go", pipeBase + ".assets/"} {
 				if r.Chance(12) {
 					p.Extra = append(p.Extra, e)
 				}
